@@ -205,7 +205,7 @@ func runC09(c *fw.Ctx) {
 	dir := drv.NewDir(fw.Scratch("c09"))
 	defer os.RemoveAll(filepath.Dir(dir.Path))
 	defer dir.Close()
-	streams := map[string]bool{"pool": true, "corpus": true, "ctx": true, "variants": true, "paste": true, "include": true, "options": true, "names": true}
+	streams := map[string]bool{"pool": true, "corpus": true, "ctx": true, "variants": true, "paste": true, "include": true, "options": true, "names": true, "schema-rules": true}
 	if !c.Quick() {
 		streams["scan"] = true
 	}
